@@ -433,7 +433,7 @@ SBuf::compare(const char *s, const SBufCaseSensitive isCaseSensitive, const size
     // pretend we have a 0-terminator there to compare.
     // NP: the loop already incremented "right" ready for this comparison
     if (!byteCount && length() < n)
-        return '\0' - *right;
+        return '\0' - static_cast<unsigned char>(*right);
 
     // If we found a difference within the scan area,
     // or we found a '\0',
